@@ -16,7 +16,7 @@ local macro "m_loop" : tactic => `(tactic| exact q7_loop c q hnf rfl rfl)
 set_option hygiene false in
 local macro "m_fail_exit" : tactic => `(tactic| exact q7_ioFail c _ (Or.inl Nat.one_ne_zero))
 set_option hygiene false in
-local macro "m_fail_abort" : tactic => `(tactic| (rename_i hua; exact q7_ioFail c _ (Or.inr (Or.inl hua))))
+local macro "m_fail_abort" : tactic => `(tactic| (rename_i hua; exact q7_ioFail c _ (Or.inr hua)))
 set_option hygiene false in
 local macro "m_mid" : tactic => `(tactic| exact q7_mid q hnf rfl rfl rfl (fun h => Bool.noConfusion h))
 set_option hygiene false in
@@ -52,10 +52,9 @@ theorem q7_exec_closeSrcErr (hpc : s.pc = .closeSrcErr) : Q7 (exec c s) := by
   have hl := q.sad hfb hs
   unfold exec; simp only [hpc]
   refine q7_end hs rfl ?_ (by simp)
-  rcases hl with h | h | ⟨m, h⟩
+  rcases hl with h | h
   · exact Or.inl h
-  · exact Or.inr (Or.inl h)
-  · exact Or.inr (Or.inr ⟨m, List.mem_cons_of_mem _ h⟩)
+  · exact Or.inr h
 
 theorem q7_exec_openDir (hpc : s.pc = .openDir) : Q7 (exec c s) := by
   have hnf : s.pc.finBad = false := by rw [hpc]; rfl
@@ -160,8 +159,6 @@ theorem q7_exec_write (hpc : s.pc = .write) : Q7 (exec c s) := by
       | m_fail_abort
       | m_mid
       | m_stay
-      | (rename_i he; subst he
-         exact q7_ioFail c _ (Or.inr (Or.inr ⟨_, List.mem_cons_self ..⟩)))
   · generalize count (c.fault s.k) s.wr.length = n
     split
     · exact q7_afterWrite c q hnf (ev := ⟨.write s.wr.length, .ok n⟩) (by simp [emit]) rfl
